@@ -31,3 +31,28 @@ MUTANTS = [
 
                 let remaining_bytes""")]),
 ]
+
+CM = "crates/common/src/"
+US = "crates/udp/src/"
+HS = "crates/http/src/workers/swarm/"
+WS = "crates/ws/src/workers/swarm/"
+MUTANTS += [
+ dict(id="C10-valid-ge", props=["C10"], expect={"C10": r"table#ValidUntil::valid"},
+      edits=[(CM+"lib.rs", "self.0 .0 > now.0", "self.0 .0 >= now.0")]),
+ dict(id="C10-udp-small-retain-negated", props=["C10"], expect={"C10": r"retain#udp::SmallPeerMap"},
+      edits=[(US+"swarm.rs", "let keep = peer.valid_until.valid(now);\n\n            if keep {", "let keep = !peer.valid_until.valid(now);\n\n            if keep {")]),
+ dict(id="C10-http-large-keep-seeders", props=["C10"], expect={"C10": r"retain#http::LargePeerMap"},
+      edits=[(HS+"storage.rs", "let keep = peer.valid_until.valid(now);\n\n            if (!keep) & peer.is_seeder {", "let keep = peer.valid_until.valid(now) || peer.is_seeder;\n\n            if (!keep) & peer.is_seeder {")]),
+ dict(id="C10-ws-seeding-arm-forgets-deadline", props=["C10"], expect={"C10": r"refresh#ws#Occupied/Seeding"},
+      edits=[(WS+"storage.rs", "                    peer.seeder = true;\n                    peer.valid_until = valid_until;", "                    peer.seeder = true;")]),
+ dict(id="C10-udp-refresh-uses-connection-age", props=["C10"], expect={"C10": r"refresh#udp#mio#field_sources"},
+      edits=[(US+"workers/socket/mio/mod.rs", "                shared.shared_state.server_start_instant,\n                shared.config.cleaning.max_peer_age,", "                shared.shared_state.server_start_instant,\n                shared.config.cleaning.max_connection_age,")]),
+ dict(id="C10-http-clean-own-clock", props=["C10"], expect={"C10": r"clock#aquatic_http|now#http"},
+      edits=[(HS+"storage.rs", "if let Some(now) = server_start_instant.seconds_elapsed() {\n            self.ipv4.clean(config, &mut access_list_cache, now);", "if let Some(now) = ServerStartInstant::new().seconds_elapsed() {\n            self.ipv4.clean(config, &mut access_list_cache, now);")]),
+ dict(id="C10-ws-offer-uses-peer-age", props=["C10"], expect={"C10": r"refresh#ws#offer_deadline"},
+      edits=[(WS+"storage.rs", "ValidUntil::new(server_start_instant, config.cleaning.max_offer_age);", "ValidUntil::new(server_start_instant, config.cleaning.max_peer_age);")]),
+ dict(id="C10-ws-expectation-retain-negated", props=["C10"], expect={"C10": r"retain#ws::TorrentData::clean_and_get_num_peers::\{closure#0\}"},
+      edits=[(WS+"storage.rs", ".retain(|_, valid_until| valid_until.valid(now));", ".retain(|_, valid_until| !valid_until.valid(now));")]),
+ dict(id="C10-new-with-offset-dropped", props=["C10"], expect={"C10": r"table#ValidUntil::new"},
+      edits=[(CM+"lib.rs", ".map(|elapsed| Self(SecondsSinceServerStart(elapsed.0 + offset_seconds)))", ".map(|elapsed| Self(SecondsSinceServerStart(elapsed.0.max(offset_seconds))))")]),
+]
